@@ -238,4 +238,151 @@ theorem firstReprFrom_of_coherent (cells : List RawCell) (prev : Option RawMetad
 theorem firstRepr_of_coherent (t : RawTriangle) (h : coherent t = true) : firstRepr t = t :=
   firstReprFrom_of_coherent t none h
 
+/-! ### prefix safety of the writer as written, for EVERY well-formed triangle (final round) -/
+
+theorem readRecords_prefix_py (pool : List Bytes) (hp : pool.length ≤ 65536)
+    (cells : List RawCell) (hc : ∀ c ∈ cells, cellOk c = true ∧ CellIn pool c) :
+    ∀ (prev cur : Option RawMetadata), (∀ m, cur = some m → metaOk m = true) →
+      (prev.isSome = true → cur.isSome = true) → ∀ (m fuel : Nat),
+      ((writeRecordsPy pool prev cells).take m).length < fuel →
+      PrefixResult (firstReprFrom prev cur cells)
+        (readRecords (pool.map some) fuel cur ((writeRecordsPy pool prev cells).take m)) := by
+  induction cells with
+  | nil =>
+    intro prev cur _ _ m fuel hf
+    cases fuel with
+    | zero => simp at hf
+    | succ f => right; exact ⟨0, by simp [writeRecordsPy, readRecords, firstReprFrom]⟩
+  | cons c cs ih =>
+    obtain ⟨hok, hv, hd, hl⟩ := hc c (by simp)
+    have hmeta : metaOk c.md = true := by
+      simp only [cellOk, Bool.and_eq_true] at hok
+      exact hok.1.1.2
+    have ih' := ih (fun c' h' => hc c' (by simp [h']))
+    -- the cell record read under the current record `md0`, and what follows
+    have cellPart : ∀ (md0 : RawMetadata), metaOk md0 = true → ∀ (m fuel : Nat),
+        (((kindTag c.kind :: writeCellBody pool c) ++ writeRecordsPy pool (some c.md) cs).take m).length < fuel →
+        PrefixResult ({ c with md := md0 } :: firstReprFrom (some c.md) (some md0) cs)
+          (readRecords (pool.map some) fuel (some md0)
+            (((kindTag c.kind :: writeCellBody pool c) ++ writeRecordsPy pool (some c.md) cs).take m)) := by
+      intro md0 hm0 m fuel hf
+      have hok' : cellOk { c with md := md0 } = true := cellOk_withMd hok hm0
+      have hw : writeCellBody pool { c with md := md0 } = writeCellBody pool c := rfl
+      cases fuel with
+      | zero => simp at hf
+      | succ f =>
+        match m with
+        | 0 => right; exact ⟨0, by simp [readRecords]⟩
+        | i + 1 =>
+          simp only [List.cons_append, List.take_succ_cons, List.length_cons] at hf ⊢
+          simp only [readRecords, kindTag_ne_meta, Bool.false_eq_true, if_false, markerKind_kindTag,
+            Option.getD_some]
+          by_cases hi : i < (writeCellBody pool c).length
+          · rw [take_append_le _ _ _ (by omega)]
+            have hs := readCellBody_strong pool hp { c with md := md0 } hok' hv
+            rw [hw] at hs
+            obtain ⟨e, he⟩ := hs i hi
+            left; exact ⟨e, by rw [he]⟩
+          · rw [take_append_ge _ _ _ (by omega)] at hf ⊢
+            have hb := readCellBody_writeCellBody pool hp { c with md := md0 } hok' hv
+            rw [hw] at hb
+            rw [hb]
+            simp only [List.length_append] at hf
+            rcases ih' (some c.md) (some md0) (fun m' e => by cases e; exact hm0) (fun _ => rfl)
+                (i - (writeCellBody pool c).length) f (by omega) with ⟨e, he⟩ | ⟨k, hk⟩
+            · left; exact ⟨e, by simp only [he]⟩
+            · right; exact ⟨k + 1, by simp only [hk, List.take_succ_cons]⟩
+    intro prev cur hcur hpc m fuel hf
+    rw [writeRecordsPy_cons] at hf ⊢
+    rw [firstReprFrom_cons]
+    by_cases hch : pyChanged prev c.md = true
+    · simp only [hch, if_true, List.cons_append] at hf ⊢
+      cases fuel with
+      | zero => simp at hf
+      | succ f =>
+        match m with
+        | 0 => right; exact ⟨0, by simp [readRecords]⟩
+        | i + 1 =>
+          simp only [List.take_succ_cons, List.length_cons] at hf ⊢
+          simp only [readRecords, metaTag_self, if_true]
+          by_cases hi : i < (writeMetaBody pool c.md).length
+          · rw [take_append_le _ _ _ (by omega)]
+            obtain ⟨e, he⟩ := readMetaBody_strong pool hp c.md hmeta hd hl i hi
+            left; exact ⟨e, by rw [he]⟩
+          · rw [take_append_ge _ _ _ (by omega)] at hf ⊢
+            rw [readMetaBody_writeMetaBody pool hp c.md hmeta hd hl]
+            simp only [List.length_append] at hf
+            exact cellPart c.md hmeta (i - (writeMetaBody pool c.md).length) f
+              (by simp only [List.cons_append]; omega)
+    · simp only [hch, Bool.false_eq_true, if_false, List.nil_append] at hf ⊢
+      have hps : prev.isSome = true := by
+        cases prev with
+        | none => simp [pyChanged] at hch
+        | some p => rfl
+      obtain ⟨md0, hmd0⟩ := Option.isSome_iff_exists.mp (hpc hps)
+      subst hmd0
+      simp only [Option.getD_some]
+      exact cellPart md0 (hcur md0 rfl) m fuel hf
+
+theorem encodePy_eq' (t : RawTriangle) :
+    encodePy t = 175 :: 54 :: 1 :: 0 :: 1 :: (writePool (poolOf t) ++ writeRecordsPy (poolOf t) none t) := by
+  have hm : K.magic = [175, 54, 1, 0] := by decide
+  have hv : K.version = [1] := by decide
+  simp [encodePy, hm, hv]
+
+/-- **C19 for the writer as written, without `coherent`**: every strict prefix of the file `to_binary` really wrote is
+refused or decodes to exactly the leading cells of `firstRepr t` (= what the untorn file decodes to) -/
+theorem decode_prefix_safe_firstRepr_main (t : RawTriangle) (h : wf t = true) (n : Nat)
+    (hn : n < (encodePy t).length) : PrefixResult (firstRepr t) (decode ((encodePy t).take n)) := by
+  obtain ⟨hc, hlen⟩ := wf_parts h
+  rw [encodePy_eq'] at hn ⊢
+  by_cases h5 : n < 5
+  · left
+    have hm : K.magic = [175, 54, 1, 0] := by decide
+    have hv : K.version = [1] := by decide
+    refine ⟨.valueError, ?_⟩
+    have : n = 0 ∨ n = 1 ∨ n = 2 ∨ n = 3 ∨ n = 4 := by omega
+    rcases this with rfl | rfl | rfl | rfl | rfl <;> simp [decode, hm, hv]
+  · obtain ⟨m, rfl⟩ : ∃ m, n = m + 5 := ⟨n - 5, by omega⟩
+    simp only [List.take_succ_cons]
+    simp only [List.length_cons, List.length_append] at hn
+    by_cases hm : m < (writePool (poolOf t)).length
+    · rw [take_append_le _ _ _ (by omega)]
+      rcases readPool_weak (poolOf t) hlen (poolOf_strOk t hc) m hm with ⟨e, he⟩ | ⟨v, hv⟩
+      · left; exact ⟨e, decode_header_err _ e he⟩
+      · right; exact ⟨0, by rw [decode_header_ok _ _ _ hv]; simp [readRecords]⟩
+    · rw [take_append_ge _ _ _ (by omega),
+        decode_header_ok _ _ _ (readPool_writePool (poolOf t) hlen (poolOf_strOk t hc) _)]
+      exact readRecords_prefix_py (poolOf t) (by omega) t
+        (fun c hc' => ⟨hc c hc', cellIn_poolOf t c hc'⟩) none none (fun m e => by cases e)
+        (fun e => by cases e) _ _ (by omega)
+
+theorem firstReprFrom_cellOk (cells : List RawCell) (hc : ∀ c ∈ cells, cellOk c = true) :
+    ∀ (prev cur : Option RawMetadata), (∀ m, cur = some m → metaOk m = true) →
+      ∀ c ∈ firstReprFrom prev cur cells, cellOk c = true := by
+  induction cells with
+  | nil => intro _ _ _ c hcm; simp [firstReprFrom] at hcm
+  | cons c0 cs ih =>
+    intro prev cur hcur c hcm
+    have hok := hc c0 (by simp)
+    have hmeta : metaOk c0.md = true := by
+      simp only [cellOk, Bool.and_eq_true] at hok
+      exact hok.1.1.2
+    have ih' := ih (fun c' h' => hc c' (by simp [h']))
+    rw [firstReprFrom_cons] at hcm
+    by_cases hch : pyChanged prev c0.md = true
+    · simp only [hch, if_true, List.mem_cons] at hcm
+      rcases hcm with rfl | hcm
+      · exact hok
+      · exact ih' (some c0.md) (some c0.md) (fun m e => by cases e; exact hmeta) c hcm
+    · simp only [hch, Bool.false_eq_true, if_false, List.mem_cons] at hcm
+      rcases hcm with rfl | hcm
+      · cases cur with
+        | none => simpa using hok
+        | some m => exact cellOk_withMd hok (hcur m rfl)
+      · exact ih' (some c0.md) cur hcur c hcm
+
+theorem firstRepr_cellOk (t : RawTriangle) (h : wf t = true) : ∀ c ∈ firstRepr t, cellOk c = true :=
+  firstReprFrom_cellOk t (wf_parts h).1 none none (fun m e => by cases e)
+
 end Bermuda.Codec
